@@ -281,11 +281,15 @@ class Interp:
         self.max_steps = max_steps
         self.events = []
         self.depth = 0
+        self.subs = []          # linear equalities learnt on this path: (variable, replacement polynomial)
         self.globals = globals or {}    # qualified name -> Box: symbolic / overridden globals and static members
 
     # ---- signs / comparisons --------------------------------------------
     def sign_poly(self, p):
         p = to_poly(p)
+        for var, repl in self.subs:
+            if var in p.vars():
+                p = p.subst(var, repl)
         if p.is_const():
             c = p.const_value()
             return (c > 0) - (c < 0)
@@ -306,6 +310,14 @@ class Interp:
     def _atom(self, p):
         s, canon = p.canonical()
         v = self.oracle.choose(("sign", canon.key()), (-1, 0, 1), repr(canon))
+        if v == 0 and canon.degree() == 1:
+            # the path now knows a linear equality: eliminate one variable from later queries so that dependent
+            # comparisons (|dx|+|dy| > 0 after dx == 0 and dy == 0) are decided consistently
+            lin = sorted((m[0][0], c) for m, c in canon.t.items() if m)
+            c0 = canon.t.get((), 0)
+            var, coef = lin[-1]
+            rest = Poly({m: -c / coef for m, c in canon.t.items() if m != ((var, 1),)})
+            self.subs.append((var, rest))
         return s * v
 
     def sign(self, x):
